@@ -175,6 +175,11 @@ func (f *FragmentBuffer) Pop() (content []byte, epoch uint16) {
 		return nil, 0
 	}
 
+	if _, ok := frags.fragmentByOffset[0]; !ok {
+		// An empty message is complete only once its (empty) fragment at offset
+		// 0 arrived; fragments at other offsets cannot stand in for it.
+		return nil, 0
+	}
 	firstHeader := frags.fragmentByOffset[0].handshakeHeader
 	firstHeader.FragmentOffset = 0
 	firstHeader.FragmentLength = firstHeader.Length
